@@ -22,6 +22,7 @@ DECIDES = (
     ' the arccos arguments of the angle terms cannot leave [-1, 1] by rounding (C14.TRIG-DOMAIN); the kernels combine only differences of points - no position used as a vector, no component picked from a vector (C14.SHAPE-ONLY); the per-side loop is not left early (part of C14.UNIFORM).'
     ' Derived per-face arrays are used as closed cycles (np.roll), never as open chains or single rows (part of C14.FACE-SYMMETRY); nothing computed per side is used after the per-side loop (part of C14.UNIFORM).'
     " The aspect-ratio term is non-decreasing when the longest edge grows and the shortest does not (C14.STRETCH-MONOTONE, monotonicity domain); this cell's side index is applied to this cell only (part of C14.UNIFORM)."
+    ' The small-number guards of the kernels are floors, not summands (C14.SCALE-FREE-GUARDS); a clip applied before the normalisation is reported (part of C14.TRIG-DOMAIN).'
 )
 NOT_DECIDED = "invariance under rigid motion and uniform scaling as numbers (floating-point numerics); the size of the rise under stretching."
 ASSUMPTIONS = []
